@@ -17,7 +17,7 @@ Hypotheses used below (all decidable on a concrete history, see the examples at 
 * `(run ops).evicted = []` — the orphan pool never overflowed its bound of 100 (an evicted orphan was
                            delivered but is forgotten by design; wall-clock expiry is not modelled).
 -/
-import BV.C02.Lemmas8
+import BV.C02.Lemmas9
 import BV.Generated.C02
 namespace BV.C02
 open Spec Lemmas
@@ -118,6 +118,26 @@ theorem views_agree (ops : List Op) (hdo : deliveryOnly ops) (hwf : WF (mentione
   obtain ⟨n, hn⟩ := htip
   obtain ⟨t1, t2⟩ := chainTips_active s hne n hn
   exact ⟨rep_run ops, a, b, c, d, t1, n, hn, t2⟩
+
+/-- For EVERY history — deliveries, InvalidateBlock, ReconsiderBlock in any mixture — the active
+chain is sound and the views agree: the tip ends a chain of delivered blocks that pass every check
+(`ValidChain`), with the cumulative work recorded for it; `best` ends in genesis, consecutive entries
+are linked by the parent pointer, node heights match positions, every entry is stored and passes its
+connect-time check; and the notification stream replays to `best`. (Manual invalidation can make the
+node settle on a chain that is not the best one — F-C02-a/b — but never on an unsound or inconsistent one.) -/
+theorem active_chain_sound_all_ops (ops : List Op) (hwf : WF (mentioned ops)) :
+    let s := run ops
+    ValidChain (delivered ops) s.tip (s.wsum s.tip) ∧
+    replay s.notes = s.best ∧
+    s.best.getLast? = some 0 ∧
+    (∀ i c p, s.best[i]? = some c → s.best[i + 1]? = some p →
+      ∃ n, lookup s.idx c = some n ∧ n.blk.parent = p) ∧
+    (∀ i c, s.best[i]? = some c → ∃ n, lookup s.idx c = some n ∧ n.height + i + 1 = s.best.length) ∧
+    (∀ c ∈ s.best, (s.status c).data = true ∧ ∃ n, lookup s.idx c = some n ∧ n.blk.connOk = true) := by
+  intro s
+  obtain ⟨D', h1, hi⟩ := run_safe_all ops hwf
+  obtain ⟨a, b, c, d⟩ := pathOK'_plain hi hi.path
+  exact ⟨validChain_mono (fun x hx => (h1 x).mp hx) (path_valid' hi hi.path), rep_run ops, a, b, c, d⟩
 
 /-! ### 4. order independence -/
 
